@@ -4,17 +4,21 @@ package weshnet
 
 import (
 	"bytes"
+	"context"
 	"fmt"
+	"sync"
 	"testing"
 	"time"
 
 	"github.com/ipfs/go-cid"
+	"github.com/libp2p/go-libp2p/core/crypto"
 	"pgregory.net/rapid"
 
 	"berty.tech/go-orbit-db/stores/operation"
 	"berty.tech/weshnet/v2/internal/vacct"
 	"berty.tech/weshnet/v2/pkg/errcode"
 	"berty.tech/weshnet/v2/pkg/protocoltypes"
+	"berty.tech/weshnet/v2/pkg/secretstore"
 )
 
 // C08 through real group contexts: whichever way the chain-key announcement of a sender reaches a member - live, after
@@ -26,10 +30,15 @@ import (
 // the delivered set must stop changing for 6 s before a missing delivery is judged (a stable wrong state, not a slow one).
 func TestVerif_C08_GroupContexts(t *testing.T) {
 	acct := vacct.Get("C08")
-	vacct.RapidCheck(t, vacct.N(16, 300), func(rt *rapid.T) {
+	vacct.RapidCheck(t, vacct.N(20, 300), func(rt *rapid.T) {
 		// the receiving device belongs to another member, or is a second device of the sender's own account (the
 		// announcement it holds is then the one addressed to their common member)
 		kind := rapid.SampledFrom([]string{"multimember", "contact", "multimember-sibling", "account-sibling"}).Draw(rt, "kind")
+		// a quarter of the cases: the announcement arrives while the receiver's activation is catching up (see the plans)
+		duringActivation := rapid.IntRange(0, 3).Draw(rt, "announcementDuringActivation") == 0
+		if duringActivation {
+			kind = "multimember"
+		}
 		sibling := kind == "multimember-sibling" || kind == "account-sibling"
 		a := vNewReplica(t, "A", nil)
 		var b *vReplica
@@ -80,6 +89,7 @@ func TestVerif_C08_GroupContexts(t *testing.T) {
 			}
 		}
 		activate(aContact, "A")
+		headsAfterActivationOfA := agc.MetadataStore().OpLog().Heads().Slice() // A's device announcement, not yet its chain key for B
 		// A addresses its chain key to B's member (in a contact group activation already did)
 		if _, err := agc.MetadataStore().SendSecret(vCtx, bgc.MemberPubKey()); err != nil && !errcode.Is(err, errcode.ErrCode_ErrGroupSecretAlreadySentToMember) {
 			rt.Fatalf("harness: SendSecret: %v", err)
@@ -119,7 +129,16 @@ func TestVerif_C08_GroupContexts(t *testing.T) {
 			"activate,metadata,messages", // live path
 			"activate,messages,metadata",
 			"messages,activate,metadata",
+			// A's device announcement is known before B activates; A's chain-key announcement arrives while B's activation
+			// is still catching up (its own "send secrets to existing members" step is held meanwhile)
+			"announcement-during-activation,messages",
 		}).Draw(rt, "plan")
+		if duringActivation {
+			plan = "announcement-during-activation,messages"
+		} else if plan == "announcement-during-activation,messages" {
+			plan = "activate,metadata,messages"
+		}
+		gated := false
 		deliverMeta := func() {
 			for _, h := range agc.MetadataStore().OpLog().Heads().Slice() {
 				if err := vDeliverMeta(bgc, agc, h); err != nil {
@@ -142,6 +161,35 @@ func TestVerif_C08_GroupContexts(t *testing.T) {
 				deliverMsgs()
 			case "activate":
 				activate(bContact, "B")
+			case "announcement-during-activation":
+				for _, h := range headsAfterActivationOfA {
+					if err := vDeliverMeta(bgc, agc, h); err != nil {
+						rt.Fatalf("harness: %v", err)
+					}
+				}
+				gate := &c08GateStore{SecretStore: bgc.metadataStore.secretStore, hit: make(chan struct{}), open: make(chan struct{})}
+				bgc.metadataStore.secretStore = gate
+				done := make(chan error, 1)
+				go func() { done <- bContact() }()
+				select {
+				case <-gate.hit:
+				case err := <-done:
+					rt.Fatalf("harness: activation of B returned (%v) without sending its secret to the existing member", err)
+				case <-time.After(30 * time.Second):
+					rt.Fatalf("harness: activation of B never reached the step that sends secrets to existing members")
+				}
+				deliverMeta()
+				time.Sleep(400 * time.Millisecond) // the live handler takes the entry (or not) while the activation is held
+				close(gate.open)
+				select {
+				case err := <-done:
+					if err != nil {
+						rt.Fatalf("harness: activation of B: %v", err)
+					}
+				case <-time.After(30 * time.Second):
+					rt.Fatalf("harness: activation of B did not return")
+				}
+				gated = true
 			}
 		}
 		gpk, _ := g.GetPubKey()
@@ -206,6 +254,22 @@ func TestVerif_C08_GroupContexts(t *testing.T) {
 		catchUp := plan == "metadata,messages,activate" || plan == "messages,metadata,activate"
 		acct.Case(catchUp, fmt.Sprintf("gc|%s|%s|%d", kind, plan, n), func() any {
 			return map[string]any{"kind": "group-contexts", "group": kind, "plan": plan, "messages": n}
-		}, "group-context", lbl07(catchUp, "group-context/parked-before-catch-up"), lbl07(poisonAt >= 0, "group-context/undecodable-entry-in-the-batch"), lbl07(sibling, "group-context/receiver-is-a-sibling-device"))
+		}, "group-context", lbl07(catchUp, "group-context/parked-before-catch-up"), lbl07(poisonAt >= 0, "group-context/undecodable-entry-in-the-batch"), lbl07(sibling, "group-context/receiver-is-a-sibling-device"), lbl07(gated, "group-context/announcement-during-activation"))
 	})
+}
+
+// c08GateStore holds the first GetShareableChainKey call (made by the activation's "send secrets to existing members"
+// step) until the harness lets it go.
+type c08GateStore struct {
+	secretstore.SecretStore
+	hit, open chan struct{}
+	once      sync.Once
+}
+
+func (g *c08GateStore) GetShareableChainKey(ctx context.Context, group *protocoltypes.Group, member crypto.PubKey) ([]byte, error) {
+	g.once.Do(func() {
+		close(g.hit)
+		<-g.open
+	})
+	return g.SecretStore.GetShareableChainKey(ctx, group, member)
 }
